@@ -71,6 +71,8 @@ var regexClasses = []valClass{
 	{"plain", []string{"foo", "foo.*", ".+", "(a|b)", "[a-z]+", "severity", "team", "summary", "Foo.*", ".*:.*", "^abc$", "a|b"}},
 	{"empty", []string{""}},
 	{"invalid", []string{"(", "[", "a{2,1}", "*", "\\", "(?P<x", "a**", "\\Q", "(?z)"}},
+	// valid or not depending on what the pattern is wrapped in before it is compiled (^p$ vs ^(?:p)$ vs p alone)
+	{"wrapper-sensitive", []string{"foo\\", "severity\\", "a|b\\", ".*\\", "\\\\\\", "a)|(b", ")", "x)(y", "(?i", "\\E"}},
 	{"templated", []string{"{{ $alert }}.*", "{{ $labels.team }}", "{{ $labels.severity }}-.+", "{{ $annotations.summary }}", "{{ $record }}:.+", "{{ $for }}", "{{ $alert }}", "({{ $alert }})", "{{ .Alert }}x", "{{ $labels.nosuch }}.*", "{{ .Expr }}"}},
 	{"templated-broken", []string{"{{ $alert", "{{ nosuch }}", "{{ .Nope }}", "{{ $undefined }}", "{{ end }}", "{{ $labels.a.b.c }}", "{{ index $labels 1 }}", "{{ template \"x\" }}", "{{ printf \"%d\" .Alert }}", "{{ .Labels.x.y }}", "{{ len .For.X }}"}},
 	{"meta", []string{"{{ $alert }}(", "[{{ $alert }}", "{{ $labels.team }}*", "\\{{ $alert }}", "{{ $alert }}{2,1}", "(?P<{{ $alert }}>x)", "{{ $labels.team }}{{ $alert }}"}},
